@@ -105,6 +105,18 @@ def intcode_cases(rng, n):
     return out
 
 
+def rare_zero_cases(rng, n):
+    """quantitative values around 0 with over-represented neighbours and a RARE value exactly equal to 0.0 between them (shifted copies have no zero there)"""
+    out = []
+    for t in range(n):
+        vals = [-2.0, -1.0, 0.0, 1.0, 2.0]; sc = rng.choice([2, 3, 5])
+        counts = [(rng.choice([3, 4]) * sc, rng.choice([2, 3]) * sc), (rng.choice([5, 6]) * sc, rng.choice([4, 6]) * sc), (1, rng.choice([0, 1])), (rng.choice([4, 6]) * sc, rng.choice([5, 7]) * sc), (rng.choice([2, 3]) * sc, rng.choice([3, 4]) * sc)]
+        case = zoo.table_case(counts, kind='quantitative', quant_values=vals, nan_counts=rng.choice([None, (2, 1)]))
+        cfg = dict(min_freq=rng.choice([0.04, 0.08]), min_freq_mod=None, max_n_mod=rng.choice([3, 4]), sort_by=rng.choice(['tschuprowt', 'cramerv']), dropna=True, output_dtype='str')
+        out.append((case, cfg))
+    return out
+
+
 def ushape_cases(rng, n):
     """quantitative count tables with missing values whose target rate is NOT monotone and ties exactly between two non-adjacent values (dropna=True):
     whether two groups may stay apart then depends on which groups are neighbours in the feature's order, never on how their labels are spelled"""
@@ -124,7 +136,7 @@ def ushape_cases(rng, n):
 
 def run(ctx):
     nt, nr = (150, 60) if ctx.tier == 'quick' else (1500, 500)
-    specs = [(c, cfg, ctx.seed * 13 + i) for i, (c, cfg) in enumerate(table_cases(ctx.rng, nt, ctx.tier) + ushape_cases(ctx.rng, nt // 3) + intcode_cases(ctx.rng, nt // 5) + random_cases(ctx.rng, nr))]
+    specs = [(c, cfg, ctx.seed * 13 + i) for i, (c, cfg) in enumerate(table_cases(ctx.rng, nt, ctx.tier) + ushape_cases(ctx.rng, nt // 3) + intcode_cases(ctx.rng, nt // 5) + rare_zero_cases(ctx.rng, nt // 10) + random_cases(ctx.rng, nr))]
     ctx.bound('carver.fit + transform', '%d count-table frames (exact rate ties, thresholds on group frequencies; a third more with missing values and a non-monotone rate tying between non-adjacent values) and %d random frames; per frame: row permutation, reversal, 3 index relabellings, '
               '11 exact affine maps (a in {0.125,0.5,1,2,3,4,5,8}, b in {-2^40,-2,-1,0,1,3,7,10,2^44}; only maps that are exactly invertible on the data), order-preserving category renaming' % (nt, nr))
     for recs in zoo.pmap(one, specs):
